@@ -34,7 +34,7 @@ func walkCheck(id string, fam *e1.Family, tier common.Tier) int {
 		for _, inU := range []bool{false, true} {
 			for _, mix := range []e1.Mix{{Imm: true, Ctor: 1, Mut: true}, {Imm: true, Ctor: 2, Mut: false, PreludeLast: true}} {
 				for _, b := range e1.Alphabet(fam, inU, []int{0}) {
-					if b.Encl == e1.EFillerType || b.Encl == e1.EFillerVar {
+					if b.Encl == e1.EFillerType || b.Encl == e1.EFillerVar || b.File == 3 {
 						continue
 					}
 					for wr := e1.WNone; wr < e1.NumWrappers(); wr++ {
